@@ -8,13 +8,18 @@ namespace coloquinte {
 DetailedPlacement DetailedPlacement::fromIspdCircuit(const Circuit &circuit) {
   // Represent fixed cells with -1 width so they are not considered
   int rowHeight = circuit.rowHeight();
-  std::vector<int> widths = circuit.cellWidth_;
+  std::vector<int> widths;
+  widths.reserve(circuit.nbCells());
+  for (int c = 0; c < circuit.nbCells(); ++c) {
+    // Placed dimensions: the orientation of the cell may be turned
+    widths.push_back(circuit.placedWidth(c));
+  }
   std::vector<Rectangle> obstacles;
   for (int c = 0; c < circuit.nbCells(); ++c) {
     if (circuit.cellIsFixed_[c]) {
       widths[c] = -1;
     }
-    if (circuit.cellHeight_[c] != rowHeight) {
+    if (circuit.placedHeight(c) != rowHeight) {
       widths[c] = -1;
       Rectangle pl = circuit.placement(c);
       obstacles.push_back(pl);
